@@ -7,6 +7,7 @@
 From Coq Require Import NArith ZArith List String Bool.
 From V Require Import Base.UString Base.Json Model.SchemaTypes Model.PyBase Model.Schema
      Spec.StixValid Spec.SchemaRefine Proofs.SchemaScope Proofs.SchemaProved Proofs.SchemaKnot Proofs.SchemaC02 Proofs.SchemaTables
+     Proofs.SchemaCovProved Proofs.SchemaCovKnot Proofs.SchemaCovC02
      Gen.Tables Gen.SpecTables Model.RegistryBuilder Proofs.C19Inherit Proofs.C19InheritRefine Proofs.C19InheritC02.
 From V Require Model.Registry.
 Import ListNotations.
@@ -44,3 +45,39 @@ Theorem builtins_still_covered_example :
   forallb (fun c => class_proved cover_depth (world_add lib CMarking V21 (u "x-ex-marking") ex_marking) c) lib_covered = true.
 Proof. exact ex_builtin_still_covered_lemma. Qed.
 Print Assumptions builtins_still_covered_example.
+
+(* ---------------- with the schema family's larger coverage predicate (Props/C02.v, strict_sound_partial_wide) ---------------- *)
+
+Theorem custom_type_strict_sound_wide :
+  forall (vr : variant) (ev : env) bv k V n xt user cn
+         (pattern_ok : ver -> ustring -> bool) (selectors_ok : list (ustring * pval) -> pval -> result bool)
+         (fuel m : nat) (req : request) oc inner dfl hc,
+    variant_sound vr = true -> env_ok ev = true ->
+    forallb slot_kind_ok user = true -> name_ok_for k n = true ->
+    req_strict req = true -> req_scope req = true ->
+    run vr ev (world_add lib k V n (custom_cls bv k V n xt user cn)) pattern_ok selectors_ok fuel req
+      = Ok (PObject oc inner dfl hc) ->
+    class_proved2 m (world_add lib k V n (custom_cls bv k V n xt user cn)) oc = true ->
+    hc = false /\
+    exists f, valid_obj (world_add spec_relaxed k V n (custom_cls bv k V n xt user cn)) pattern_ok f oc
+                        (encode false (PObject oc inner dfl hc)) = true.
+Proof. exact custom_type_strict_sound_wide_lemma. Qed.
+Print Assumptions custom_type_strict_sound_wide.
+
+(* the coverage premise holds at custom types of every kind: a 2.1 and a 2.0 custom object, a 2.1 and a 2.0
+   custom observable, a 2.1 property-extension and a custom marking (string, bounded integer, reference and
+   list properties), each in the library world extended by it *)
+Theorem custom_types_covered_examples :
+  covered_in_extended CObject V21 (u "x-ex-object") ex_object21 = true /\
+  covered_in_extended CObject V20 (u "x-ex-object") ex_object20 = true /\
+  covered_in_extended CObservable V21 (u "x-ex-observable") ex_observable21 = true /\
+  covered_in_extended CObservable V20 (u "x-ex-observable") ex_observable20 = true /\
+  covered_in_extended CExtension V21 (u "x-ex-ext") ex_extension21 = true /\
+  covered_in_extended CMarking V21 (u "x-ex-marking") ex_marking = true.
+Proof. exact ex_custom_types_covered_lemma. Qed.
+Print Assumptions custom_types_covered_examples.
+
+Theorem builtins_still_covered_wide_example :
+  forallb (fun c => class_proved2 cover2_depth (world_add lib CObject V21 (u "x-ex-object") ex_object21) c) lib_covered2 = true.
+Proof. exact ex_builtins_still_covered_wide_lemma. Qed.
+Print Assumptions builtins_still_covered_wide_example.
